@@ -1,0 +1,29 @@
+//go:build verif
+
+package keeper
+
+// Contracts for the deductive verifier in /verif (govc). Comment-only; compiled only with -tags verif.
+
+//@ spec func gmpMsgSigners(cdc iface, msg iface) [][]byte
+//@ spec func gmpMsgSignersErr(cdc iface, msg iface) error
+//@ spec func sdkAccountAddress(a iface) string
+
+//@ contract interface github.com/cosmos/cosmos-sdk/types.AccountI.GetAddress
+//@   ensures str(result) == sdkAccountAddress(self)
+
+//@ contract (*Keeper).authenticateTx
+//@   pure
+//@   invariant #1 idx: 0 - 1 <= rangeindex && rangeindex < len(msgs) || (len(msgs) == 0 && rangeindex == 0 - 1)
+//@   invariant #1 authenticated_so_far: forall j int :: 0 <= j && j <= rangeindex ==> msgSignersErr(k.cdc, msgs[j]) == nil && len(msgSigners(k.cdc, msgs[j])) == 1 && str(msgSigners(k.cdc, msgs[j])[0]) == sdkAccountAddress(account)
+//@   ensures non_empty: err == nil ==> len(msgs) > 0
+//@   ensures exactly_one_signer_the_account: forall j int :: err == nil && 0 <= j && j < len(msgs) ==> len(msgSigners(k.cdc, msgs[j])) == 1 && str(msgSigners(k.cdc, msgs[j])[0]) == sdkAccountAddress(account)
+
+//@ contract (*Keeper).executeTx
+//@   let msgs = nth(types.DeserializeCosmosTx(k.cdc, payload), 0)
+//@   let derr = nth(types.DeserializeCosmosTx(k.cdc, payload), 1)
+//@   let auth = k.authenticateTx(ctx, account, msgs)
+//@   modifies world(ctx)
+//@   invariant #1 parent_untouched: world(ctx) == old(world(ctx))
+//@   ensures authenticated: err == nil ==> derr == nil && auth == nil
+//@   ensures unauthenticated_rejected: derr != nil || auth != nil ==> err != nil && world(ctx) == old(world(ctx))
+//@   ensures all_or_nothing: err != nil ==> world(ctx) == old(world(ctx))
